@@ -103,7 +103,7 @@ func runSlow(lines [][]byte, outPath, resPath string) {
 			res.block([]event{{"h": c.ID, "o": c.O, "unrealised": err.Error()}})
 			continue
 		}
-		out.block([]event{{"ev": "reset", "h": c.ID, "o": c.O, "mode": "slow"},
+		out.block([]event{{"ev": "reset", "h": c.ID, "o": c.O, "mode": "slow", "cap": 1024},
 			{"ev": "req", "g": 1, "pos": 1, "a": abstractOf(c.R), "hit": 2, "pid": 0, "len": 0, "resp": sha(got), "ref": sha(ref.Resp),
 				"raweq": 1, "plan": "", "fplan": "", "bod": "", "fbod": "", "nx": held}})
 		if got != ref.Resp {
